@@ -162,9 +162,15 @@ func (r *refEVM) exec(c *Chain, from common.Address, s EthTxSpec, baseFee *big.I
 	sender := vm.AccountRef(from)
 	var vmErr error
 	if isCreate {
+		// the created address derives from the tx nonce; afterwards the sender's nonce is never below what it was
+		// (the ante handler has counted every message of the cosmos tx) and at least tx nonce + 1
+		before := r.db.GetNonce(from)
 		r.db.SetNonce(from, s.Nonce)
 		_, _, left, vmErr = evm.Create(sender, s.Data, left, s.Value)
-		r.db.SetNonce(from, s.Nonce+1)
+		if before < s.Nonce+1 {
+			before = s.Nonce + 1
+		}
+		r.db.SetNonce(from, before)
 	} else {
 		_, left, vmErr = evm.Call(sender, *s.To, s.Data, left, s.Value)
 	}
